@@ -1,3 +1,78 @@
-From Adb Require Import Base Net_Model.
-Theorem C01_placeholder : True. Proof. exact I. Qed.
-Print Assumptions C01_placeholder.
+(* Props_C01.v — pinned statements for C01: the engine's verdict equals the rule-by-rule
+   evaluation of the loaded list.  The hash function [h], the per-rule matcher [matches] and the
+   request's probe list [pr] are arbitrary (universally quantified): the theorems hold for every
+   hash, every matcher and every request.  [TG] is the token guarantee ("a rule that matches a
+   request has a bucket-candidate group made of tokens the request probes"); it is the only place
+   where the concrete tokenizer and matcher meet, it is monitored on every generated (rule,
+   request) pair by the harness, and the four input classes on which the crate violates it are the
+   known findings F2, F3, F4, F23 (props/C01.known.json). *)
+From Adb Require Import Base Generated Hashing Net_Model Net_Proofs.
+
+(* The index never loses or invents a rule, whatever the histogram / bucket-size heuristics pick. *)
+Theorem C01_new_well_indexed : forall h L, WellIndexed h (fl_new h L) L.
+Proof. exact new_well_indexed. Qed.
+Print Assumptions C01_new_well_indexed.
+
+Theorem C01_add_well_indexed : forall h m L f,
+  WellIndexed h m L -> WellIndexed h (fl_add h m f) (L ++ [f]).
+Proof. exact add_well_indexed. Qed.
+Print Assumptions C01_add_well_indexed.
+
+(* No rule that does not match (or whose tag is off, or that is not in the list) is applied. *)
+Theorem C01_check_all_sound : forall h matches pr m L tags f,
+  WellIndexed h m L -> In f (check_all matches m pr tags) -> In f L /\ hit matches tags f = true.
+Proof. exact check_all_sound. Qed.
+Print Assumptions C01_check_all_sound.
+
+(* No matching rule is lost. *)
+Theorem C01_check_all_complete : forall h matches pr, In 0 pr -> forall m L tags f,
+  WellIndexed h m L -> id_inj L -> In f L -> hit matches tags f = true -> covered h pr f ->
+  In f (check_all matches m pr tags).
+Proof. exact check_all_complete. Qed.
+Print Assumptions C01_check_all_complete.
+
+Theorem C01_check_some_iff : forall h matches pr, In 0 pr -> forall m L tags,
+  WellIndexed h m L -> id_inj L -> TG h matches pr L ->
+  (check matches m pr tags <> None <-> existsb (hit matches tags) L = true).
+Proof. exact check_some_iff. Qed.
+Print Assumptions C01_check_some_iff.
+
+(* blocked / important / exception-present / filter-present of the engine = the documented
+   precedence applied to the rule-by-rule hits, for every list, tag set and request. *)
+Theorem C01_engine_eq_rule_by_rule : forall h matches pr, In 0 pr -> forall L T,
+  id_inj L -> TG h matches pr L ->
+  blocker_check matches pr (tags_with_set h (blocker_new h L) T) = spec_verdict matches L T.
+Proof. exact engine_eq_spec. Qed.
+Print Assumptions C01_engine_eq_rule_by_rule.
+
+(* The rule sets feeding redirect, rewritten URL, CSP and generichide are exact as well. *)
+Theorem C01_redirect_hits_exact : forall h matches pr, In 0 pr -> forall L T f,
+  id_inj L -> TG h matches pr L ->
+  (In f (redirect_hits matches pr (tags_with_set h (blocker_new h L) T)) <-> In f (spec_redirect_hits matches L)).
+Proof. exact redirect_hits_exact. Qed.
+Print Assumptions C01_redirect_hits_exact.
+
+Theorem C01_removeparam_hits_exact : forall h matches pr, In 0 pr -> forall L T f,
+  id_inj L -> TG h matches pr L ->
+  (In f (removeparam_hits matches pr (tags_with_set h (blocker_new h L) T)) <-> In f (spec_removeparam_hits matches L)).
+Proof. exact removeparam_hits_exact. Qed.
+Print Assumptions C01_removeparam_hits_exact.
+
+Theorem C01_csp_hits_exact : forall h matches pr, In 0 pr -> forall L T f,
+  id_inj L -> TG h matches pr L ->
+  (In f (csp_hits matches pr (tags_with_set h (blocker_new h L) T)) <-> In f (spec_csp_hits matches L T)).
+Proof. exact csp_hits_exact. Qed.
+Print Assumptions C01_csp_hits_exact.
+
+Theorem C01_generic_hide_exact : forall h matches pr, In 0 pr -> forall L T,
+  id_inj L -> TG h matches pr L ->
+  generic_hide_hit matches pr (tags_with_set h (blocker_new h L) T) = spec_generic_hide matches L.
+Proof. exact generic_hide_exact. Qed.
+Print Assumptions C01_generic_hide_exact.
+
+(* the request always probes bucket 0 *)
+Theorem C01_probes_zero : forall h src url, In 0 (probes h src url).
+Proof.
+  intros h src url. unfold probes, request_tokens. apply in_or_app. right. apply in_or_app. right. left. reflexivity.
+Qed.
+Print Assumptions C01_probes_zero.
